@@ -32,8 +32,12 @@ open BW.Model BW.Model.Text BW.Proofs.Text
 theorem node_round_trip (n : Node) (h : NodeOK n) : parseNode (printNode n) = some n :=
   parseNode_printNode n h
 
-theorem predicate_round_trip (L : Leaf) (hL : LeafLaws L) (p : Pred) : parsePred L (printPred L p) = some p :=
-  parsePred_printPred L hL p
+/-- A predicate prints to text that parses back to it — when its anchor is one the format can write (`PredOK`: for Go's
+    RFC 3339, the years 0..9999 in the anchor's own zone: `9999-12-31T23:59:59.999999999Z` seen from `+01:00` prints
+    as `10000-01-01T00:59:59.999999999+01:00`, which `time.Parse` refuses; the law without that condition was false of
+    Go and the real code failed at the excluded point — a limit of the text format, recorded in DESIGN.md). -/
+theorem predicate_round_trip (L : Leaf) (hL : LeafLaws L) (p : Pred) (hp : PredOK L p) : parsePred L (printPred L p) = some p :=
+  parsePred_printPred L hL p hp
 
 theorem literal_round_trip_bool (L : Leaf) (b : Bool) : parseLit L (printLit L (.bool b)) = some (.bool b) :=
   parseLit_printLit_bool L b
@@ -59,14 +63,14 @@ theorem int64_text_round_trip (i : Int) (h : IsI64 i) : parseInt64 (fmtInt i) = 
   parseInt64_fmtInt i h
 
 /-- Nodes, literals and predicates as objects: `ParseObject` gives back the same kind and value. -/
-theorem object_round_trip (L : Leaf) (hL : LeafLaws L) (o : Obj) (h : ObjOK o) : parseObject L (printObj L o) = some o :=
+theorem object_round_trip (L : Leaf) (hL : LeafLaws L) (o : Obj) (h : ObjOK L o) : parseObject L (printObj L o) = some o :=
   parseObject_printObj L hL o h
 
 /-- A whole triple. -/
 theorem triple_round_trip (L : Leaf) (hL : LeafLaws2 L) (t : Triple)
-    (hs : NodeOK t.s) (hsty : noSpace t.s.ty) (hsid : noSpace t.s.id) (hp : noSpace t.p.id) (ho : ObjOK t.o) :
+    (hs : NodeOK t.s) (hsty : noSpace t.s.ty) (hsid : noSpace t.s.id) (hp : noSpace t.p.id) (hpo : PredOK L t.p) (ho : ObjOK L t.o) :
     parseTriple L (printTriple L t) = some t :=
-  parseTriple_printTriple L hL t hs hsty hsid hp ho
+  parseTriple_printTriple L hL t hs hsty hsid hp hpo ho
 
 /-- Writing a graph and reading the text back: the same triples, their number, no error. -/
 theorem graph_round_trip (L : Leaf) (ts : List Triple) (h : ∀ t ∈ ts, LineOK L t) :
@@ -74,14 +78,14 @@ theorem graph_round_trip (L : Leaf) (ts : List Triple) (h : ∀ t ∈ ts, LineOK
   read_write_round_trip L ts h
 
 /-- Printing again gives the same text (a consequence of the round trips: the parsed value IS the value). -/
-theorem predicate_print_stable (L : Leaf) (hL : LeafLaws L) (p : Pred) :
+theorem predicate_print_stable (L : Leaf) (hL : LeafLaws L) (p : Pred) (hp : PredOK L p) :
     (parsePred L (printPred L p)).map (printPred L) = some (printPred L p) := by
-  rw [predicate_round_trip L hL p]; rfl
+  rw [predicate_round_trip L hL p hp]; rfl
 
 theorem triple_print_stable (L : Leaf) (hL : LeafLaws2 L) (t : Triple)
-    (hs : NodeOK t.s) (hsty : noSpace t.s.ty) (hsid : noSpace t.s.id) (hp : noSpace t.p.id) (ho : ObjOK t.o) :
+    (hs : NodeOK t.s) (hsty : noSpace t.s.ty) (hsid : noSpace t.s.id) (hp : noSpace t.p.id) (hpo : PredOK L t.p) (ho : ObjOK L t.o) :
     (parseTriple L (printTriple L t)).map (printTriple L) = some (printTriple L t) := by
-  rw [triple_round_trip L hL t hs hsty hsid hp ho]; rfl
+  rw [triple_round_trip L hL t hs hsty hsid hp hpo ho]; rfl
 
 /-! Non-vacuity: the laws are satisfiable (a toy codec meets all of them), a concrete triple meets the
     hypotheses of `triple_round_trip`, and concrete instances of the integer codec. -/
@@ -119,8 +123,9 @@ theorem takeWhile_replicate (n : Nat) (rest : Bytes) :
 theorem toyLeaf_laws : LeafLaws2 toyLeaf where
   unq_quote := by intro i; simp [toyLeaf]
   quote_shape := by intro i; exact ⟨i, by simp [toyLeaf]⟩
+  time_parsed_ok := by intro s t _; rfl
   time_round := by
-    intro t
+    intro t _
     simp only [toyLeaf]
     have e : List.replicate (encI t.nanos) (49 : UInt8) ++ [48] ++ List.replicate (encI t.off) 49 =
         List.replicate (encI t.nanos) 49 ++ 48 :: List.replicate (encI t.off) 49 := by simp
@@ -154,7 +159,7 @@ theorem toyLeaf_laws : LeafLaws2 toyLeaf where
 def exTriple : Triple := ⟨⟨[47, 117], [97]⟩, .tmp [112, 34, 64, 91] ⟨5, 3600⟩, .lit (.text [32, 93, 32, 47])⟩
 example : parseTriple toyLeaf (printTriple toyLeaf exTriple) = some exTriple :=
   triple_round_trip toyLeaf toyLeaf_laws exTriple ⟨by decide, by decide, by decide⟩ (by intro c hc; revert c; decide)
-    (by intro c hc; revert c; decide) (by intro c hc; revert c; decide) trivial
+    (by intro c hc; revert c; decide) (by intro c hc; revert c; decide) rfl trivial
 example : parseNode (printNode ⟨[47, 117], [97, 32, 98]⟩) = some ⟨[47, 117], [97, 32, 98]⟩ := by decide
 example : parseInt64 (fmtInt (-9223372036854775808)) = some (-9223372036854775808) := by
   exact parseInt64_fmtInt _ (by constructor <;> decide)
